@@ -517,7 +517,9 @@ def stack(arrays, axis=0, out=None, **kwargs):
     ret_units = _validate_units_consistency(arrays)
     if out is None:
         return (
-            np.stack._implementation([np.asarray(_) for _ in arrays], axis=axis)
+            np.stack._implementation(
+                [np.asarray(_) for _ in arrays], axis=axis, **kwargs
+            )
             * ret_units
         )
     res = np.stack._implementation(
